@@ -10,3 +10,7 @@ Theorem C09_text_only : forall c, C09_text_only_stmt c.            Proof. exact 
 Theorem C09_lyric_section_disjoint : forall c, C09_lyric_section_disjoint_stmt c.
 Proof. exact Proofs.C09.C09_lyric_section_disjoint. Qed.
 Theorem C09_partition : forall c, C09_partition_stmt c.            Proof. exact Proofs.C09.C09_partition. Qed.
+
+(** Capstone: a rendered [Events] body is classified line by line into exactly the written events. *)
+From CP Require Import Spec.Render Proofs.Render.
+Theorem render_events : render_events_stmt.   Proof. exact Proofs.Render.render_events. Qed.
